@@ -11,7 +11,7 @@ history and every warning of the tighter run is a warning of the looser one.
 import itertools
 
 from mc import rng
-from mc.explorer import System, Violation
+from mc.explorer import System, Violation, dev_split
 from checks.drivers import DRIVERS
 
 PROPERTY = "C17"
@@ -166,6 +166,20 @@ LADDERS = [
     ("STEPD", "warning", {"window_size": 3, "alpha_drift": 0.3}, "alpha_warning", [0.05, 0.2, 0.45], 11, 14),
     ("LinearFourRates", "warning", {"time_decay_factor": 0.6, "detect_level": 0.1, "burn_in": 1, "num_mc": 20}, "warning_level", [0.02, 0.05, 0.2, 0.4], 5, 6),
 ]
+# long histories (deviation-bounded: the default history with every choice of <= k positions replaced by another
+# symbol, all run to completion) for ladders that end in the legal extreme of the parameter: delta = 0 is documented
+# ("0 <= delta <= 1") and is the strictest setting; values such as 1e-300 lie between it and everything else, and the
+# cut they imply is only beaten by windows of several dozen samples
+# (system, kind, base, parameter, ladder, default history, menu, k quick, k thorough)
+LONG = [
+    ("ADWIN", "drift", {}, "delta", [1e-3, 1e-12, 1e-100, 1e-300, 0.0], [0] * 64 + [5] * 96, [0, 1, 5], 1, 2),
+    ("ADWIN", "drift", {"conservative_bound": True, "_scale": 0.2}, "delta", [1e-3, 1e-12, 1e-100, 1e-300, 0.0], [0] * 64 + [5] * 96, [0, 1, 5], 1, 2),
+    ("ADWIN", "drift", {"new_sample_thresh": 8, "window_size_thresh": 4, "subwindow_size_thresh": 2, "max_buckets": 3}, "delta", [1.0, 1e-2, 1e-20, 1e-200, 5e-324, 0.0], [0] * 40 + [5] * 72, [0, 1, 5], 1, 2),
+    ("STEPD", "drift", {"window_size": 10, "alpha_warning": 0.05}, "alpha_drift", [0.003, 1e-12, 1e-300, 0.0], [0] * 30 + [1] * 30, [0, 1], 1, 2),
+    ("NNDVI", "drift", {"k_nn": 2, "sampling_times": 8}, "alpha", [0.3, 1e-3, 1e-12, 0.0], [0, 0, 1, 2, 0, 3, 1], [0, 1, 2, 3], 1, 2),
+    ("HDDDM", "drift", {"detect_batch": 2, "statistic": "tstat", "subsets": 3}, "significance", [0.2, 1e-3, 1e-12, 0.0], [0, 0, 1, 2, 0, 3, 1], [0, 1, 2, 3], 1, 2),
+    ("KdqTreeBatch", "drift", {"bootstrap_samples": 10, "count_ubound": 1}, "alpha", [0.3, 1e-3, 1e-12, 0.0], [0, 0, 1, 2, 0, 3], [0, 1, 2, 3], 1, 1),
+]
 COST = {"KdqTreeBatch": 30, "LinearFourRates": 20, "HDDDM": 10, "CDBD": 8, "NNDVI": 8, "KdqTreeStreaming": 10}
 
 
@@ -189,6 +203,21 @@ def tasks(tier, seed):
                         "validate_every": 211,
                     }
                 )
+    for li, (name, kind, base, param, vals, default, menu, kq, kt) in enumerate(LONG):
+        cfg = {"id": 1000 + li, "base": base, "param": param, "values": vals, "kind": kind, "salt": None}
+        out += dev_split(
+            {
+                "system": name,
+                "cfg": cfg,
+                "mode": "dev",
+                "default": list(default),
+                "menu": list(menu),
+                "k": kq if tier == "quick" else kt,
+                "label": "%s|long%d:%s" % (name, li, param),
+                "cost": COST.get(name, 1) * 4,
+                "validate_every": 53,
+            }
+        )
     return out
 
 
@@ -208,7 +237,12 @@ def describe(tier):
             "ladders": [
                 {"detector": l[0], "clause": l[1], "parameter": l[3], "values": l[4], "depth": l[5] if tier == "quick" else l[6], "base": l[2]}
                 for l in LADDERS
-            ]
+            ],
+            "long_ladders": [
+                {"detector": l[0], "clause": l[1], "parameter": l[3], "values": l[4], "base": l[2], "history_length": len(l[5]),
+                 "deviations_k": l[7] if tier == "quick" else l[8], "menu": l[6]}
+                for l in LONG
+            ],
         },
         "explanation": "differential oracle between real objects only; a run stops being advanced after its first drift "
         "(first-drift clause) and a branch ends when every setting has alarmed",
